@@ -96,7 +96,7 @@ func typeAndVersion(cl jwt.Claims) (string, int) {
 }
 
 func runC12(c *Ctx) {
-	c.Res.Rule = "random claims of all seven kinds with arbitrary junk in issuer / issue time / id / kind / version, every permitted signer role, first and repeated encodes, plus forced failures (wrong signer role, wrong subject, unmarshalable content). Oracle on the real code: after Encode the object's issuer = signer's public key, iat = current second, kind and version 2 stamped, id = base32(SHA-512/256(JSON of the standard fields with the id cleared)) recomputed independently; the decoded token reports the same five values; everything else is unchanged (deep compare, imports/exports as multisets and sorted by subject); equal standard fields give equal ids whatever the previous id or payload, changing one changes the id; a failed Encode returns an empty token. Every Encode also goes through the Lean model (token text with an id placeholder, hash pre-image, resulting object). non-trivial = distinct claims."
+	c.Res.Rule = "(shared entries: export/import objects still held by the caller or listed by a second account are other content - encoding one account leaves them and the other account as they were) random claims of all seven kinds with arbitrary junk in issuer / issue time / id / kind / version, every permitted signer role, first and repeated encodes, plus forced failures (wrong signer role, wrong subject, unmarshalable content). Oracle on the real code: after Encode the object's issuer = signer's public key, iat = current second, kind and version 2 stamped, id = base32(SHA-512/256(JSON of the standard fields with the id cleared)) recomputed independently; the decoded token reports the same five values; everything else is unchanged (deep compare, imports/exports as multisets and sorted by subject); equal standard fields give equal ids whatever the previous id or payload, changing one changes the id; a failed Encode returns an empty token. Every Encode also goes through the Lean model (token text with an id placeholder, hash pre-image, resulting object). non-trivial = distinct claims."
 	n := c.N(1500, 150000)
 	for i := 0; i < n; i++ {
 		kind := allKinds[c.R.Intn(len(allKinds))]
@@ -220,6 +220,53 @@ func runC12(c *Ctx) {
 		if i < 2 {
 			c.Sample(map[string]interface{}{"kind": kind, "token": tok})
 		}
+	}
+	// shared entries: an export / import object that the caller still holds, or that a second account's list also
+	// points to, is "other content": encoding one account (which sorts ITS list) must leave the object, and the other
+	// account, exactly as they were
+	for i := 0; i < c.N(60, 2000); i++ {
+		subs := []string{"m.private", "z.shared", "a.first", "k.mid", "b.second", "y.last"}
+		for x := len(subs) - 1; x > 0; x-- {
+			y := c.R.Intn(x + 1)
+			subs[x], subs[y] = subs[y], subs[x]
+		}
+		n := 2 + c.R.Intn(4)
+		a1 := jwt.NewAccountClaims(pubOf(kpN('A', 31)))
+		a2 := jwt.NewAccountClaims(pubOf(kpN('A', 32)))
+		var held []*jwt.Export
+		var heldI []*jwt.Import
+		for j := 0; j < n; j++ {
+			e := &jwt.Export{Subject: jwt.Subject(subs[j]), Type: jwt.Stream, Name: "e" + subs[j]}
+			im := &jwt.Import{Subject: jwt.Subject(subs[j]), Account: pubOf(kpN('A', 33)), Type: jwt.Stream, Name: "i" + subs[j], LocalSubject: jwt.RenamingSubject("l." + subs[j])}
+			a1.Exports.Add(e)
+			a1.Imports.Add(im)
+			held, heldI = append(held, e), append(heldI, im)
+			if c.R.Chance(50) {
+				a2.Exports.Add(e)
+				a2.Imports.Add(im)
+			}
+		}
+		var before []string
+		for j := range held {
+			before = append(before, dumpAny(held[j])+dumpAny(heldI[j]))
+		}
+		other := frameDump(a2)
+		otherOrder := fmt.Sprint(subjectsOfExports(a2.Exports), subjectsOfImports(a2.Imports))
+		rp := map[string]interface{}{"scenario": "shared-entries", "subjects_in_insertion_order": subs[:n], "second_account_exports": subjectsOfExports(a2.Exports)}
+		if _, err := a1.Encode(kpN('O', 0)); err != nil {
+			c.Count("shared-entries:encode-error")
+			continue
+		}
+		for j := range held {
+			if dumpAny(held[j])+dumpAny(heldI[j]) != before[j] {
+				c.Violate("frame", "Encode rewrote an export/import object the caller still holds (held entry "+subs[j]+" now reads "+string(held[j].Subject)+")", rp)
+				break
+			}
+		}
+		if frameDump(a2) != other || fmt.Sprint(subjectsOfExports(a2.Exports), subjectsOfImports(a2.Imports)) != otherOrder {
+			c.Violate("frame", "encoding one account changed another account that shares export/import objects with it", rp)
+		}
+		c.Count("shared-entries")
 	}
 	// forced failures
 	for i := 0; i < c.N(100, 3000); i++ {
